@@ -205,7 +205,32 @@ def run(prog, chk):
     for m, x, role_ok in reads:
         chk.ob("R12.5", f"{m.short}|read of self.optimizeCFF is the optimize= argument", role_ok, where(m, x), detail=T(prog.ix.enclosing_stmt(x), 70),
                message=f"{m.short} uses self.optimizeCFF for something other than the specialiser switch of getCharString")
-    chk.minimum("R12.5", 2)
+    # ... and in the constructor the option only determines the field that carries it: nothing else (no other field, no call)
+    # is computed from it or happens under a test on it
+    init = otf.methods.get("__init__")
+    need(init is not None, "OutlineOTFCompiler.__init__ not found")
+    carriers = {"optimizeCFF"} & set(init.params())
+    need(carriers, "OutlineOTFCompiler.__init__ has no optimizeCFF parameter")
+
+    def mentions(e):
+        return any((isinstance(x, ast.Name) and x.id in carriers) or (isinstance(x, ast.Attribute) and x.attr in carriers and T(x.value) == "self") for x in ast.walk(e))
+    n_init = 0
+    for st in A.stmts_of(init.node):
+        if isinstance(st, (ast.If, ast.For, ast.While, ast.With, ast.Try, ast.FunctionDef)):
+            continue
+        dep_v = mentions(st)
+        dep_c = any(mentions(g.test) for g in conds(prog, init, st) if g.polarity in (True, False))
+        if not (dep_v or dep_c):
+            continue
+        n_init += 1
+        ok = isinstance(st, ast.Assign) and all((isinstance(t, ast.Name) and t.id in carriers) or (isinstance(t, ast.Attribute) and t.attr in carriers and T(t.value) == "self") for t in st.targets)
+        if not ok and isinstance(st, ast.Expr) and isinstance(st.value, ast.Call) and T(st.value.func).startswith("super().__init__") and not dep_c:
+            ok = all(not mentions(a) for a in st.value.args) and all(not mentions(k.value) or k.arg in carriers for k in st.value.keywords)
+        chk.ob("R12.5", f"{init.short}|{A.keytext(init.node, st)}|the optimisation level only determines the field that carries it", ok, where(init, st), detail=T(st, 80),
+               message=f"{init.short}: `{T(st, 70)}` is computed from, or only happens for some values of, the CFF optimisation level: something other than the encoding "
+                       f"(rounding tolerance, tables, glyph data) now depends on an option that must not change what is drawn")
+    need(n_init >= 2, f"{init.short}: the optimizeCFF normalisation was not found")
+    chk.minimum("R12.5", 4)
 
     # ---- R12.4 plumbing
     rows = []
@@ -428,6 +453,10 @@ def r129(prog, chk):
 
 
 MUTANTS = [
+    M("rounding tolerance raised when the specialiser is on (seeded C12i)", "ufo2ft/outlineCompiler.py", "OutlineOTFCompiler.__init__",
+      "self.optimizeCFF = optimizeCFF", "self.optimizeCFF = optimizeCFF\nif optimizeCFF:\n    self.roundTolerance = max(self.roundTolerance, 0.005)", rule="R12.5"),
+    M("optimisation level kept on the compiler under a second name too", "ufo2ft/outlineCompiler.py", "OutlineOTFCompiler.__init__",
+      "self.optimizeCFF = optimizeCFF", "self.optimizeCFF = optimizeCFF\nself.specialize = optimizeCFF", rule="R12.5"),
     M("explicit nominal width rounded by the charstring compiler only (seeded C12h)", "ufo2ft/outlineCompiler.py", "OutlineOTFCompiler.getDefaultAndNominalWidths",
       "otRound(getAttrWithFallback(info, 'postscriptNominalWidthX'))", "getAttrWithFallback(info, 'postscriptNominalWidthX')", rule="R12.9"),
     M("overlap removal skipped for CFF2 (seeded C12g)", "ufo2ft/preProcessor.py", "OTFPreProcessor.initDefaultFilters",
